@@ -14,11 +14,35 @@ def ticks_of(fr, D):
   return (int(x), True) if x.denominator == 1 else (int(x), False)
 
 
-def observe(ad, rid, times=None, detail=False, style_catalogue=None, use_cache=False):
-  """One trace record for Trace_Ttml.tla."""
+def observe(ad, rid, times=None, detail=False, style_catalogue=None, use_cache=False, retime_rng=None):
+  """One trace record for Trace_Ttml.tla (two when retime_rng is given: the same document OBJECT is re-timed through the
+  model API after the first round of snapshots and observed again - nothing remembered from the first round may leak)."""
+  D = ad.get("D", 2)
+  doc, elems, _regions = build_doc(ad, D, style_catalogue)
+  rec = _observe_doc(doc, ad, rid, times, detail, use_cache)
+  if retime_rng is None:
+    return rec
+  import copy
+  cands = [k for k in range(ad["n"]) if ad["kind"][k] not in ("text", "br")]
+  if not cands:
+    return rec
+  ad2 = copy.deepcopy(ad)
+  for k in retime_rng.sample(cands, min(len(cands), retime_rng.randint(1, 2))):
+    nb = retime_rng.choice([NONE_T, 2 * retime_rng.randrange(0, 4 * (D // 2) + 1)])
+    ne = retime_rng.choice([NONE_T, 2 * retime_rng.randrange(0, 8 * (D // 2) + 1)])
+    ad2["b"][k], ad2["e"][k] = nb, ne
+    elems[k].set_begin(None if nb == NONE_T else Fraction(nb, D))
+    elems[k].set_end(None if ne == NONE_T else Fraction(ne, D))
+  rec2 = _observe_doc(doc, ad2, rid + 1000000, None, detail, use_cache)
+  return [rec, rec2]
+
+
+NONE_T = -1
+
+
+def _observe_doc(doc, ad, rid, times, detail, use_cache):
   from ttconv.isd import ISD
   D = ad.get("D", 2)
-  doc, _elems, _regions = build_doc(ad, D, style_catalogue)
   fps = []
   if use_cache:
     from .isdu import fingerprint
